@@ -156,6 +156,17 @@ def excl_end(u, s, n):
     return d + datetime.timedelta(n)
 
 
+def shifted(d, u, k):
+    """date d moved by k units u, by datetime arithmetic (month / year shifts clip to the month's end)."""
+    if u == 4:
+        return addm(d, 12 * k)
+    if u == 3:
+        return addm(d, k)
+    if u == 1:
+        return d + datetime.timedelta(7 * k)
+    return d + datetime.timedelta(k)
+
+
 def span(p):
     """(first ordinal, last ordinal) of the set of days the period denotes."""
     u, s, n = p
@@ -181,6 +192,18 @@ def oracle(c, o):
             return f"{op}: raised {o.kind} on {c}"
         if op == "sub" and (c["p"][0], c["u"]) in FAMILY:
             return f"sub: raised {o.kind} on {c}"
+        if op == "size" and c["which"] == 2 and c["p"][0] in (0, 1, 2, 3, 4) and c["p"][2] >= 1:
+            return f"size: size_in_days raised {o.kind} on {c['p']}"
+        if op in ("offset", "ioffset"):
+            # a shift whose target is a calendar day in range must not fail
+            u, s0, k = (c["u"], c["c"], c["n"]) if op == "ioffset" else (
+                c["p"][0] if c["u"] is None else c["u"], c["p"][1], c["n"])
+            if u != 5 and s0[0] >= 1:
+                try:
+                    shifted(D(s0), u, k)
+                except (ValueError, OverflowError):
+                    return None
+                return f"{op}: raised {o.kind} on {c}"
         return None
     if op in ("stop", "days", "size", "sub", "contains", "inter", "offset") and c["p"][0] == 5:
         return None
@@ -246,7 +269,15 @@ def oracle(c, o):
         u, s, n = c["p"]
         k = c["n"]
         ou = u if c["u"] is None else c["u"]
-        if ou in (3, 4) and s[2] > 28:
+        # the shift moves the start by the right amount (month-end clipping as the calendar has it)
+        d = D(s)
+        exp = shifted(d, ou, k)
+        if list(o[1]) != [exp.year, exp.month, exp.day]:
+            return f"offset: start of {c['p']} shifted by {k} {UCOQ[ou]} should be {exp}, got {o[1]}"
+        if o[0] != u or o[2] != n:
+            return f"offset: {c['p']} shifted by {k} changed unit or size: {o}"
+        # shifting by n then by -n returns the original period when no clipping occurs
+        if ou in (3, 4) and exp.day != d.day:
             return None
         try:
             back = mk_period(o).offset(-k, None if c["u"] is None else UNITS[c["u"]])
@@ -254,12 +285,11 @@ def oracle(c, o):
             return f"offset: inverse shift raised {e}"
         if enc_period(back) != [u, list(s), n]:
             return f"offset: {c['p']} shifted by {k} then {-k} gives {enc_period(back)}"
-        # and the shift itself moves the start by the right amount
-        d = D(s)
-        exp = {4: lambda: addm(d, 12 * k), 3: lambda: addm(d, k), 1: lambda: d + datetime.timedelta(7 * k)}.get(
-            ou, lambda: d + datetime.timedelta(k))()
-        if D(o[1]) != exp:
-            return f"offset: start of {c['p']} shifted by {k} {UCOQ[ou]} should be {exp}, got {o[1]}"
+    elif op == "ioffset":
+        if c["u"] != 5:
+            exp = shifted(D(c["c"]), c["u"], c["n"])
+            if list(o) != [exp.year, exp.month, exp.day]:
+                return f"ioffset: {c['c']} shifted by {c['n']} {UCOQ[c['u']]} should be {exp}, got {o}"
     elif op == "named":
         s = c["p"][1]
         d = D(s)
@@ -313,6 +343,9 @@ BOUNDARY_MD = [(1, 1), (1, 2), (1, 3), (1, 4), (1, 5), (1, 28), (1, 29), (1, 30)
                (10, 31), (11, 30), (12, 1), (12, 27), (12, 28), (12, 29), (12, 30), (12, 31)]
 BOUNDARY_Y = [1000, 1582, 1600, 1700, 1899, 1900, 1970, 1996, 1999, 2000, 2001, 2004, 2008, 2009, 2012, 2015,
               2016, 2019, 2020, 2021, 2024, 2026, 2032, 2100, 2200, 2399, 2400]
+LEAP_NEAR_CENTURY = [1596, 1600, 1604, 1696, 1704, 1796, 1804, 1896, 1904, 1996, 2000, 2004, 2096, 2104,
+                     2196, 2204, 2296, 2304, 2396, 2400, 2404]
+LEAP_SHIFTS = [1, -1, 4, -4, 8, -8, 96, -96, 100, -100, 104, -104, 200, -200, 300, -300, 400, -400]
 LADDER = [1, 1, 1, 2, 3, 4, 6, 7, 11, 12, 13, 24, 25, 36, 40, 52, 53, 100, 366]
 
 
@@ -436,6 +469,23 @@ def generate(rng, tier):
         cases.append({"op": "lastof", "c": c, "u": u})
         cases.append({"op": "isocal", "c": c})
         cases.append({"op": "le", "a": c, "b": rng.choice(bd)})
+    # 29 February against the century rule: whole-year / whole-month shifts and multi-year spans from
+    # every leap year next to a century year, onto leap (1600, 2000, 2400) and common (1700 ... 2300)
+    # century years and their neighbours, in both directions (deterministic, all tiers)
+    for y in LEAP_NEAR_CENTURY:
+        c = [y, 2, 29]
+        for k in LEAP_SHIFTS:
+            if not 1 <= y + k <= 9990:
+                continue
+            cases.append({"op": "ioffset", "c": c, "n": k, "u": 4})
+            cases.append({"op": "ioffset", "c": c, "n": 12 * k, "u": 3})
+            cases.append({"op": "offset", "p": [4, c, 1], "n": k, "u": None})
+            cases.append({"op": "offset", "p": [2, c, 1], "n": k, "u": 4})
+            cases.append({"op": "offset", "p": [3, c, 1], "n": 12 * k, "u": None})
+            if k > 0:
+                p = [4, c, k]
+                cases += [{"op": "stop", "p": p}, {"op": "days", "p": p}, {"op": "size", "which": 2, "p": p},
+                          {"op": "stop", "p": [3, c, 12 * k]}, {"op": "size", "which": 2, "p": [3, c, 12 * k]}]
     if tier == "thorough":
         # exhaustive sweep: every start date of the 400-year cycle 2000..2399, stop + isocalendar
         d = datetime.date(2000, 1, 1)
